@@ -47,7 +47,7 @@ def gen_cases(tier, seed):
     n = 24 if tier == 'quick' else 300
     cases = []
     for i in range(n):
-        cases.append({'seed': seed * 7919 + i, 'style': 'words' if i % 6 == 5 else 'mixed', 'txn': 150 if tier == 'quick' else 600,
+        cases.append({'seed': seed * 7919 + i, 'style': 'words' if i % 6 == 5 else ('interconnect' if i % 6 == 2 else 'mixed'), 'txn': 150 if tier == 'quick' else 600,
                       'profiles': list(PROFILES) if tier == 'thorough' else [list(PROFILES)[(i + k) % len(PROFILES)] for k in range(3)]})
     return cases
 
@@ -81,7 +81,7 @@ class Run:
         sim.settle()
         model = axigen.Model(lay)
         mapped = sorted(model.map)
-        unmapped = [a for a in range(0, 1 << axigen.ADDR_BITS, 4) if a not in model.map]
+        unmapped = [a for a in range(0, 1 << lay.master_bits, 4) if a not in model.map]
         hot = rnd.sample(mapped, min(len(mapped), 6))
         self.addresses = set()
 
@@ -196,7 +196,7 @@ class Run:
                 return
         for port, reg, kind in self.lay.notes:
             it = next(x for x in self.lay.items if x.name == reg)
-            want = sum(1 for t in (reads if kind == 'rd' else writes) if t['addr'] == it.off)
+            want = sum(1 for t in (reads if kind == 'rd' else writes) if t['addr'] == it.off + self.lay.window_base)
             if self.note_counts[port] != want:
                 self.fail('notification-count', f"{port}: {self.note_counts[port]} pulse(s) for {want} completed {'read' if kind == 'rd' else 'write'}(s) of register {reg}")
                 return
@@ -292,7 +292,7 @@ class Run:
                 self.note_counts[port] += 1
                 it = next(x for x in self.lay.items if x.name == reg)
                 txs = reads if kind == 'rd' else writes
-                acc = sum(1 for i, t in enumerate(txs) if t['addr'] == it.off and (i < (st['ar'] if kind == 'rd' else both)))
+                acc = sum(1 for i, t in enumerate(txs) if t['addr'] == it.off + self.lay.window_base and (i < (st['ar'] if kind == 'rd' else both)))
                 if self.note_counts[port] > acc:
                     self.fail('notification-without-access', f"{port} pulsed {self.note_counts[port]} time(s) but only {acc} "
                               f"{'read' if kind == 'rd' else 'write'}(s) of register {reg} were accepted so far")
@@ -372,6 +372,8 @@ def run_case(case):
                 cnt['vhdl_issues'] += len(bad)
         if run.viol:
             mech, msg = run.viol
+            if lay.style == 'interconnect':
+                mech = 'interconnect:' + mech
             viol.append(violation(mech, msg + f"; layout {[(i.kind, i.name, hex(i.off), i.words) for i in lay.items]}", source=src, vhdl=comp.text))
             break
         cnt['runs'] += 1
